@@ -300,7 +300,7 @@ func C12(r *core.Report) {
 	r.Extra["C12_site_counts"] = counts
 	r.Floor("C12.R1", 6)
 	r.Floor("C12.R9", 2)
-	r.Floor("C12.R2", 50)
+	r.Floor("C12.R2", 44)
 	r.Floor("C12.R3", 10)
 	r.Floor("C12.R4", 8)
 }
@@ -1233,6 +1233,74 @@ func decodedLinkAssertion(p *core.Prog, f *core.Func, x *ast.TypeAssertExpr) boo
 							}
 						}
 					}
+				}
+			}
+			return true
+		})
+		if found {
+			return true
+		}
+		// the link is a parameter of an unexported helper (getFramesBehindLink(link, ...)): it is a decoded link when every
+		// caller passes one
+		if v, isVar := o.(*types.Var); isVar && f.Lit == nil && f.Obj != nil && !f.Obj.Exported() && isParamOf(f, v) {
+			pi := -1
+			for i := 0; f.ParamObj(i) != nil; i++ {
+				if f.ParamObj(i) == v {
+					pi = i
+				}
+			}
+			callers := p.Callers(f)
+			if pi < 0 || len(callers) == 0 {
+				return false
+			}
+			for _, cs := range callers {
+				if cs.In == nil || cs.Dynamic || pi >= len(cs.Call.Args) {
+					return false
+				}
+				probe := &ast.TypeAssertExpr{X: cs.Call.Args[pi], Type: x.Type}
+				if !decodedLinkExpr(p, cs.In, probe) {
+					return false
+				}
+			}
+			return true
+		}
+		return false
+	}
+	return false
+}
+
+// decodedLinkExpr: decodedLinkAssertion for an assertion that is not in the source (the argument a caller passes for a link
+// parameter): only the classification of the asserted expression is used.
+func decodedLinkExpr(p *core.Prog, f *core.Func, x *ast.TypeAssertExpr) bool {
+	info := f.Pkg.TypesInfo
+	st := info.TypeOf(x.X)
+	if st == nil || !strings.HasSuffix(st.String(), "datamodel.Link") || !linkSlotsHoldCidlinks(p) {
+		return false
+	}
+	fromNode := func(e ast.Expr) bool {
+		t := info.TypeOf(e)
+		return t != nil && strings.Contains(t.String(), "ipld/ipldbindcode.")
+	}
+	switch e := core.Unparen(x.X).(type) {
+	case *ast.SelectorExpr:
+		return fromNode(e.X)
+	case *ast.IndexExpr:
+		if fromNode(e.X) {
+			return true
+		}
+		if t := info.TypeOf(e.X); t != nil && strings.Contains(t.String(), "List__Link") {
+			return true
+		}
+		if se, ok := core.Unparen(e.X).(*ast.SelectorExpr); ok {
+			return fromNode(se.X)
+		}
+	case *ast.Ident:
+		o := info.ObjectOf(e)
+		found := false
+		ast.Inspect(f.Root().Body, func(n ast.Node) bool {
+			if rs, ok := n.(*ast.RangeStmt); ok && rs.Value != nil && core.ObjOf(info, rs.Value) == o {
+				if t := info.TypeOf(rs.X); t != nil && (strings.Contains(t.String(), "ipld/ipldbindcode.List__Link") || strings.Contains(t.String(), "[]github.com/ipld/go-ipld-prime/datamodel.Link")) {
+					found = true
 				}
 			}
 			return true
